@@ -91,6 +91,20 @@ ReportsOK(e, c, S) ==
          lg == DecRec(e.rec)
      IN DOMAIN lg = DOMAIN ra /\ \A a \in DOMAIN lg : lg[a] \in {ra[a], rb[a]}
 
+\* ---------------------------------------------------------------- query calls (C13)
+QryOK(e, X, stale) ==
+  /\ "qpanic" \notin DOMAIN e
+  /\ Len(e.gw) = N(X) + 3
+  /\ \A j \in 1..Len(e.gw) : e.gw[j] = (IF (j - 2) \in 0..N(X)-1 THEN 1 ELSE 0)     \* GetWarrior(-1..count+1): nil unless valid
+  /\ Len(e.npc) = N(X) /\ Len(e.len) = N(X)
+  /\ \A i \in 1..N(X) :
+        /\ IF X.ws[i] = "alive" THEN e.npc[i] = <<Head(X.wq[i]), 0>>                   \* NextPC = head of the queue
+           ELSE IF i \in stale THEN e.npc[i][2] \in {0, 1}                            \* unspecified after Reset, but no panic
+           ELSE e.npc[i][2] = 1                                                       \* never started / dead: an error
+        /\ e.len[i] = Len(X.wd[i].code)
+  /\ \A j \in 1..Len(e.gm) : DecIns(e.gm[j][2]) = X.core[e.gm[j][1] % X.M]           \* GetMem reduces the address
+  /\ e.cc = X.cycle /\ e.maxc = X.C /\ e.cs = X.M
+
 \* ---------------------------------------------------------------- per-event checks
 S == t.S
 NoCfg == [M |-> 3, P |-> 1, C |-> 1, RL |-> 3, WL |-> 3]
@@ -109,22 +123,34 @@ Check(e) ==
   CASE e.ev = "new" ->
          /\ ~IsPanic(e.msg)
          /\ Mode = "C02" => ((e.ok = 1) <=> ValidConfig(EvCfg(e)))
-    [] e.ev = "add" -> TRUE
+    [] e.ev = "add" ->
+         ("cycle" \in DOMAIN e /\ Mode = "C13") =>
+            LET X == AddW(S, [code |-> DecCode(e.code), start |-> e.start]) IN
+            e.err = 0 /\ PostEq(e, X, S.core, t.stale) /\ QryOK(e, X, t.stale)
+    [] e.ev = "run" ->
+         /\ e.panic = "" /\ e.timeout = 0
+         /\ Mode = "C04" => SafeLogged(e, S)
+         /\ Mode = "C13" => LET R == RunW(S) IN
+                            /\ (e.nil = 1) <=> (N(S) = 0)
+                            /\ N(S) > 0 => e.flags = Flags(R)
+                            /\ PostEq(e, R, S.core, t.stale) /\ QryOK(e, R, t.stale)
     [] e.ev = "spawn" ->
          LET r == SpawnW(S, e.i, e.off) IN
          /\ e.panic = ""
          /\ Mode = "C04" => SafeLogged(e, S)
-         /\ Mode \in {"C02", "C15"} => /\ (e.err = 1) <=> (r.err # "")
-                                       /\ PostEq(e, r.S, S.core, t.stale \ {e.i + 1})
+         /\ Mode \in {"C02", "C13", "C15"} => /\ (e.err = 1) <=> (r.err # "")
+                                              /\ PostEq(e, r.S, S.core, IF r.err = "" THEN t.stale \ {e.i + 1} ELSE t.stale)
+         /\ Mode = "C13" => QryOK(e, r.S, IF r.err = "" THEN t.stale \ {e.i + 1} ELSE t.stale)
          /\ Mode = "C15" => /\ e.tasks = << >>
                             /\ e.other = (IF r.err = "" THEN << <<RSpawn, e.i, e.off % S.M>> >> ELSE << >>)
                             /\ DecRec(e.rec) = (IF r.err = "" THEN SpawnRec(t.rec, S, e.i, e.off % S.M) ELSE t.rec)
     [] e.ev = "cycle" ->
          /\ e.panic = ""
          /\ Mode = "C04" => SafeLogged(e, S)
-         /\ Mode = "C02" => \E c \in CycleOutcomes(S) :
+         /\ Mode \in {"C02", "C13"} => \E c \in CycleOutcomes(S) :
                                /\ PostEq(e, c.S, S.core, t.stale)
                                /\ c.tasks # << >> => e.ret = c.S.living
+                               /\ Mode = "C13" => QryOK(e, c.S, t.stale)
          /\ Mode = "C15" => \E c \in CycleOutcomes(S) : PostEq(e, c.S, S.core, t.stale) /\ ReportsOK(e, c, S)
     [] e.ev = "runtwin" ->
          /\ e.panic = ""
@@ -135,7 +161,8 @@ Check(e) ==
                             /\ e.same = 1
     [] e.ev = "reset" ->
          /\ Mode = "C04" => SafeLogged(e, S)
-         /\ Mode \in {"C02", "C15"} => PostEq(e, ResetW(S), S.core, 1..N(S))
+         /\ Mode \in {"C02", "C13", "C15"} => PostEq(e, ResetW(S), S.core, 1..N(S))
+         /\ Mode = "C13" => QryOK(e, ResetW(S), 1..N(S))
          /\ Mode = "C15" => DecRec(e.rec) = EmptyRec(S.M)
     [] e.ev = "rot" ->
          Mode = "C12" =>
@@ -152,8 +179,10 @@ Check(e) ==
 \* a logged state the spec cannot continue from (ill-formed or after a panic): the rest of that
 \* trace is skipped (the line that went wrong has been rejected already)
 Usable(e) == /\ ("panic" \in DOMAIN e) => e.panic = ""
+             /\ ("timeout" \in DOMAIN e) => e.timeout = 0
              /\ "obspanic" \notin DOMAIN e
-             /\ e.count = N(S) /\ Len(e.alive) = N(S) /\ Len(e.q) = N(S)
+             /\ e.count = N(S) + (IF e.ev = "add" THEN 1 ELSE 0)
+             /\ Len(e.alive) = e.count /\ Len(e.q) = e.count
              /\ \A k \in 1..Len(e.d) : e.d[k][1] \in 0..S.M-1 /\ WellFormedIns(DecIns(e.d[k][2]), S.M)
              /\ \A i \in 1..Len(e.q) : \A k \in 1..Len(e.q[i]) : e.q[i][k] \in 0..S.M-1
              /\ \A i \in 1..Len(e.q) : e.alive[i] = 1 => e.q[i] # << >>
@@ -162,7 +191,10 @@ NextT1(e) ==
   CASE e.ev = "new" -> [S |-> IF e.ok = 1 /\ e.M \in 1..100000 THEN NewState(EvCfg(e)) ELSE NewState(NoCfg),
                         stale |-> {}, rec |-> IF e.ok = 1 /\ e.M <= 4096 THEN EmptyRec(e.M) ELSE EmptyRec(1),
                         bad |-> e.ok # 1]
-    [] e.ev = "add" -> IF t.bad THEN t ELSE [t EXCEPT !.S = AddW(S, [code |-> DecCode(e.code), start |-> e.start])]
+    [] e.ev = "add" -> IF t.bad THEN t
+                       ELSE LET X == AddW(S, [code |-> DecCode(e.code), start |-> e.start]) IN
+                            [t EXCEPT !.S = IF "cycle" \in DOMAIN e THEN Logged(e, X, S.core) ELSE X]
+    [] e.ev = "run" -> [t EXCEPT !.S = Logged(e, IF Mode = "C04" THEN S ELSE RunW(S), S.core)]
     [] e.ev = "spawn" -> LET r == SpawnW(S, e.i, e.off) IN
                          [t EXCEPT !.S = Logged(e, IF Mode = "C04" THEN [S EXCEPT !.ws = [i \in 1..N(S) |-> IF i = e.i + 1 /\ e.err = 0 THEN "alive" ELSE @[i]]] ELSE r.S, S.core),
                                    !.stale = IF e.err = 0 THEN @ \ {e.i + 1} ELSE @,
@@ -175,7 +207,7 @@ NextT1(e) ==
     [] OTHER -> t
 
 NextT(e) ==
-  IF e.ev \in {"spawn", "cycle", "reset"} /\ (t.bad \/ ~Usable(e)) THEN [t EXCEPT !.bad = TRUE] ELSE NextT1(e)
+  IF (e.ev \in {"spawn", "cycle", "reset", "run"} \/ (e.ev = "add" /\ "cycle" \in DOMAIN e)) /\ (t.bad \/ ~Usable(e)) THEN [t EXCEPT !.bad = TRUE] ELSE NextT1(e)
 
 Init == l = 1 /\ t = [S |-> NewState(NoCfg), stale |-> {}, rec |-> EmptyRec(1), bad |-> TRUE]
 Next == /\ l <= Len(Trace)
